@@ -1,7 +1,7 @@
 (* C10 — The request server is a faithful adapter in both directions. Theorems only. *)
 From Coq Require Import List NArith Bool Strings.Byte.
 From Sftp Require Import Base.GoSem Wire.Prim Wire.Packets Path.Clean Err.Status Srv.ReqServer
-                         Proofs.CleanP Proofs.StatusP Proofs.ReqServerP.
+                         Proofs.CleanP Proofs.StatusP Proofs.ReqServerP Srv.Reply Proofs.ReplyP.
 Import ListNotations.
 Open Scope N_scope.
 
@@ -53,6 +53,37 @@ Theorem C10_permission_pinned_refuted :
   cat_of_cerr (normalise (status_code false WPath BPermission)) <> cat_of WPath BPermission.
 Proof. exact category_pinned_refuted. Qed.
 Print Assumptions C10_permission_pinned_refuted.
+
+(* ===== the other direction: what a handler returns reaches the client unchanged in kind (Srv/Reply.v) =====
+   request.go turns the result (n, err) of a handler call into the response. err is nil, io.EOF or an error with the status code
+   statusFromError gives it. Tied by kind replymap: handlers that return scripted (n, err) pairs for READ (read-only and
+   read+write handles), WRITE, READDIR, STAT, LSTAT and READLINK, the reply compared with these functions. *)
+Theorem C10_read_data_as_given : forall n e,
+  (e = Reply.HNil \/ (e = Reply.HEOF /\ (0 < n)%nat)) <-> Reply.read_reply n e = Reply.RData n.
+Proof. exact ReplyP.read_data_as_given. Qed.
+Print Assumptions C10_read_data_as_given.
+
+Theorem C10_read_eof_only_when_empty : forall n e, Reply.read_reply n e = Reply.RStatus 1 ->
+  (e = Reply.HEOF /\ n = 0%nat) \/ e = Reply.HErr 1%N.
+Proof. exact ReplyP.read_eof_only_when_empty. Qed.
+Print Assumptions C10_read_eof_only_when_empty.
+
+Theorem C10_errors_as_given : forall n c,
+  Reply.read_reply n (Reply.HErr c) = Reply.RStatus c /\ Reply.list_reply n (Reply.HErr c) = Reply.RStatus c /\
+  Reply.stat_reply n (Reply.HErr c) = Reply.RStatus c /\ Reply.readlink_reply n (Reply.HErr c) = Reply.RStatus c /\
+  Reply.write_reply (Reply.HErr c) = Reply.RStatus c.
+Proof. exact ReplyP.errors_as_given. Qed.
+Print Assumptions C10_errors_as_given.
+
+Theorem C10_list_as_given : forall n e,
+  (e = Reply.HNil \/ (e = Reply.HEOF /\ (0 < n)%nat)) <-> Reply.list_reply n e = Reply.RNames n.
+Proof. exact ReplyP.list_as_given. Qed.
+Print Assumptions C10_list_as_given.
+
+Theorem C10_stat_as_given : forall n e, (0 < n)%nat -> (e = Reply.HNil \/ e = Reply.HEOF) ->
+  Reply.stat_reply n e = Reply.RAttrs /\ Reply.readlink_reply n e = Reply.RName1.
+Proof. exact ReplyP.stat_as_given. Qed.
+Print Assumptions C10_stat_as_given.
 
 Example C10_nonvacuous :
   clean_with_base [x2f; x68]%byte [x2e; x2e; x2f; x2e; x2e; x2f; x65; x74; x63]%byte = [x2f; x65; x74; x63]%byte /\
